@@ -2,7 +2,7 @@ SPECIFICATION Spec
 CONSTANTS
   AttrNames = {"a", "b", "c", "at", "it", "ch", "va"}
   MaxAttrs = 2
-  MaxRows = 2
+  MaxRows = 3
   Depth = 0
 INVARIANTS TypeOK Laws
 CHECK_DEADLOCK FALSE
